@@ -113,6 +113,34 @@ def r1_r2(ctx):
                                                          "remaining presence bits are read as data" % X.render(a)[:90], l, d6)
         else:
             ctx.ok(r6, "read_from_field#bitmap-skip", d6)
+    # the presence range starts where the bitmap starts: at the cursor position taken before the skip, without arithmetic
+    r9 = "C05.R9"
+    ctx.rule(r9, "bitmap anchor: the range stored in Scope::AllBitField starts at the cursor position read *before* the bitmap is skipped "
+                 "(the first transmitted presence bit belongs to the first addition this schema knows); a range anchored at the end of the "
+                 "transmitted bitmap reads the presence bits of a newer sender's unknown additions for the known ones")
+    start = None
+    if ex[0] == "agg":
+        for nm, x in ex[4]:
+            if nm == "start":
+                start = x
+    d9 = {"function": b.path, "range_start": X.render(start)[:160] if start is not None else None}
+    st = X.strip(start) if start is not None else None
+    if st is None:
+        ctx.fail(r9, "anchor-lost:range-start", "AllBitField is not built from a Range literal", loc, d9)
+    elif not (st[0] == "call" and X.last_seg(st[1] or "") == "pos"):
+        ctx.fail(r9, "read_from_field#presence-range-start", "the presence range of the extension additions starts at `%s`, not at the cursor "
+                                                            "position in front of the bitmap" % X.render(start)[:90], loc, d9)
+    else:
+        late = []
+        for body in bodies:
+            sk = [cs for cs in body.calls() if cs.name == "set_pos"]
+            for cs in body.calls():
+                if cs.name == "pos" and cs.loc() == st[4] and any(k.target is not None and body.dominates(k.target, cs.bb) for k in sk):
+                    late.append(cs.loc())
+        if late:
+            ctx.fail(r9, "read_from_field#presence-range-start", "the start of the presence range is read after the bitmap was skipped", late[0], d9)
+        else:
+            ctx.ok(r9, "read_from_field#presence-range-start", d9)
     d2 = {"function": b.path, "uses_of_transmitted_count": sorted(set(uses))[:8], "retained_in": retained}
     if retained:
         ctx.ok(r2, "read_from_field#count-retained", d2)
